@@ -808,7 +808,7 @@ def gen_df_checks(rng, cls, dts, ws):
             mx = max(len(w) for w in ws)
             opts = [{"k": "ne", "a": {"value": "zz"}},
                     {"k": "isin", "a": {"allowed_values": sorted(set(ws)) + ["zz"]}},
-                    {"k": "c_ew", "a": {"fn": "maxlen", "n": mx + 3}},
+                    {"k": "notin", "a": {"forbidden_values": ["zz", "q q"]}},
                     {"k": "c_dfvec", "a": {"fn": "maxlen", "n": mx + 3}}]
             c = rng.choice(opts)
         else:
@@ -826,7 +826,8 @@ def gen_df_checks(rng, cls, dts, ws):
                     {"k": "in_range", "a": {"min_value": enc(a), "max_value": enc(b),
                                             "include_min": True, "include_max": True}},
                     {"k": "isin", "a": {"allowed_values": enc(sorted(set(ws)) + [b])}},
-                    {"k": "c_ew", "a": {"fn": "le", "b": enc(b)}},
+                    {"k": "c_dfew", "a": {"fn": "le", "b": enc(b)}},
+                    {"k": "c_dfew", "a": {"fn": "ge", "b": enc(a)}},
                     {"k": "c_dfvec", "a": {"fn": "ge", "b": enc(a)}},
                     {"k": "c_dfagg", "a": {"fn": "le", "b": enc(b)}}]
             if d:
@@ -834,7 +835,7 @@ def gen_df_checks(rng, cls, dts, ws):
                 opts.append({"k": "gt", "a": {"min_value": enc(a)}})
                 opts.append({"k": "notin", "a": {"forbidden_values": enc([a, b])}})
             c = rng.choice(opts)
-        if all(holds(c if not c["k"].startswith("c_df") else dict(c, k="c_ew"), w) for w in ws):
+        if all(holds(c, w) for w in ws):
             out.append(c)
     return out
 
@@ -851,13 +852,31 @@ def build_check(chk, dtype=None):
     k, a = chk["k"], {n: dec(x) for n, x in chk["a"].items()}
     if not k.startswith("c_"):
         return getattr(pa.Check, k)(**a)
-    pred = CUSTOM[chk["a"]["fn"]][0](chk["a"])
+    raw = CUSTOM[chk["a"]["fn"]][0](chk["a"])
+
+    def pred(x):
+        # null tolerant: whether pandera hands nulls to a custom check depends
+        # on the container; the custom checks never constrain nulls
+        try:
+            if x is None or x is pd.NaT or x is pd.NA or x != x:
+                return True
+        except (TypeError, ValueError):
+            pass
+        return bool(raw(x))
+
     if k == "c_ew":
         return pa.Check(pred, element_wise=True, name=f"c_ew_{chk['a']['fn']}")
     if k == "c_vec":
         return pa.Check(lambda s: s.map(pred).astype(bool), name=f"c_vec_{chk['a']['fn']}")
     if k == "c_agg":
         return pa.Check(lambda s: bool(all(pred(x) for x in s)), name=f"c_agg_{chk['a']['fn']}")
+    if k == "c_dfew":
+        # frame-level element-wise checks see a ROW (Series) in validate() and
+        # a scalar in the strategy's fallback filter: written to serve both
+        b = a["b"]
+        if chk["a"]["fn"] == "le":
+            return pa.Check(lambda x: (x <= b) | pd.isna(x), element_wise=True, name="c_dfew_le")
+        return pa.Check(lambda x: (x >= b) | pd.isna(x), element_wise=True, name="c_dfew_ge")
     if k == "c_dfvec":
         return pa.Check(lambda df: df.apply(lambda col: col.map(pred)).astype(bool),
                         name=f"c_dfvec_{chk['a']['fn']}")
